@@ -24,6 +24,7 @@ pub enum Wrapper {
     Cursor,         // io::Cursor<Vec<u8>>
     File,           // bare unbuffered std::fs::File on a real temp file
     ReadFile,       // AsepriteFile::read_file on a real temp file
+    Fifo,           // AsepriteFile::read_file on a named pipe fed in pieces by a writer thread
 }
 
 impl Wrapper {
@@ -37,6 +38,7 @@ impl Wrapper {
             Wrapper::Cursor => "cursor".into(),
             Wrapper::File => "file".into(),
             Wrapper::ReadFile => "read_file".into(),
+            Wrapper::Fifo => "fifo".into(),
         }
     }
     pub fn kind(self) -> &'static str {
@@ -49,6 +51,7 @@ impl Wrapper {
             Wrapper::Cursor => "cursor",
             Wrapper::File => "file",
             Wrapper::ReadFile => "read_file",
+            Wrapper::Fifo => "fifo",
         }
     }
     pub fn parse(s: &str) -> Option<Wrapper> {
@@ -65,6 +68,7 @@ impl Wrapper {
             "cursor" => Wrapper::Cursor,
             "file" => Wrapper::File,
             "read_file" => Wrapper::ReadFile,
+            "fifo" => Wrapper::Fifo,
             _ => return None,
         })
     }
